@@ -107,9 +107,19 @@ def dsShape (A : DArr) : List Int := A.arr.shape.map Int.ofNat
 /-- `data.shape` of the array a read returned -/
 def ndShape (d : NdArray Elem) : List Int := d.shape.map Int.ofNat
 
+/-- what can be handed to h5py as the element type of a new dataset: one of nixio's `DataType`s, or the numpy
+dtype of text data (`<U…` / object), which has no HDF5 equivalent -/
+inductive DTypeArg where
+  | nix (t : DType)
+  | numpyText
+  deriving DecidableEq, Repr
+
+/-- `data.dtype` -/
+def npDtype (d : Arr) : DTypeArg := if d.dt = .string then .numpyText else .nix d.dt
+
 /-- a numpy dtype given as a string literal in the source (`'f8'`) -/
-def npDtypeOfStr (s : String) : Option DType :=
-  if s = "f8" then some .float64 else if s = "f4" then some .float32 else none
+def npDtypeOfStr (s : String) : Option DTypeArg :=
+  if s = "f8" then some (.nix .float64) else if s = "f4" then some (.nix .float32) else none
 
 /-- `data is None` for an array argument -/
 def arrIsNone (_ : Arr) : Bool := false
